@@ -228,8 +228,9 @@ def brackets(in_file, in_encoding, **params):
                         else:
                             if not 'quiet' in params:
                                 print("got empty POS", file=sys.stderr)
-                            # last token was a word
-                            queue[-1].data['word'] = queue[-1].data['label']
+                            # last token was a word (take it as it was
+                            # read, not as gf_split took it apart)
+                            queue[-1].data['word'] = last_label_token
                             # queue[-1].data['label'] = queue[-2].data['label']
                             queue[-1].data['label'] = trees.DEFAULT_LABEL
                             queue[-1].data['edge'] = trees.DEFAULT_EDGE
@@ -302,6 +303,7 @@ def brackets(in_file, in_encoding, **params):
                     pass
                 elif state in [1, 9]:
                     # phrase label, 9 when root label, 1 otherwise
+                    last_label_token = lextoken
                     if 'gf_split' in params:
                         label_parts = trees.parse_label(lextoken,
                                                   gf_separator=gf_separator)
